@@ -7,7 +7,10 @@ LEVEL = "proof"
 RULE = ("four modes x message lengths 0..80 (encrypt, decrypt of the real ciphertext, encrypt-then-decrypt), block-boundary and "
         "large messages up to 20 KiB (64 KiB thorough) via descriptors, CTR IVs with carries between counter bytes inside "
         "the low 64 bits (and wraps of the low 64 bits, compared with the model only), every truncation of 3-block "
-        "ciphertexts, every last-block and previous-block byte corruption, crafted paddings 0..49/255, wrong key/IV sizes; "
+        "ciphertexts, every last-block and previous-block byte corruption, crafted paddings 0..49/255, every final-byte value "
+        "0..255 of the raw decryption (three constructions, both key sizes), carries after 1..7 ff bytes, 16 KiB +-1, empty "
+        "inputs on every entry point (encrypt/decrypt/encrypt_impl/decrypt_impl), every key and IV length 0..40, message "
+        "lengths in every residue class mod 256, constant/edge-valued keys and IVs, key = IV; "
         "non-trivial = the model returns OK; distinct by (op, arguments)")
 TRUSTED = ["hand-written Gallina model coq/Model/AesApi.v of src/encryption/mod.rs + block-modes 0.8.1 / block-padding 0.2.1 / "
            "aes 0.7.5 CTR flavour (tied by this correspondence run)",
@@ -220,6 +223,111 @@ def generate(rng, tier):
             D(mode, rb(rng, good_k), rb(rng, il), rb(rng, 32))
         E(mode, b"", b"", b""); D(mode, b"", b"", b"")
         E(mode, rb(rng, 15), rb(rng, 15), b""); D(mode, rb(rng, 33), rb(rng, 17), rb(rng, 16))
+
+    # 8. deterministic audit cases --------------------------------------------------------------
+    EI = lambda m, k, iv, d: cases.append(("aes.encrypt_impl", [m, k.hex(), iv.hex(), d.hex()]))
+    DI = lambda m, k, iv, d: cases.append(("aes.decrypt_impl", [m, k.hex(), iv.hex(), d.hex()]))
+    # 8a. every final byte value 0x00..0xff of the raw CBC decryption, both key sizes, three constructions:
+    #     crafted single block; IV trick on a one-block ciphertext; previous-block trick on a two-block ciphertext
+    for mode in ("128cbc", "256cbc"):
+        key, iv = rb(rng, klen(mode)), rb(rng, 16)
+        ct1 = cbc_pkcs7(key, iv, rb(rng, 11))            # one block, pad 5
+        ct2 = cbc_pkcs7(key, iv, rb(rng, 29))            # two blocks, pad 3
+        body = rb(rng, 15)
+        for v in range(256):
+            D(mode, key, iv, cbc_nopad(key, iv, bytes(x if x != v else x ^ 2 for x in body) + bytes([v])))
+            t = bytearray(iv); t[15] ^= 5 ^ v
+            D(mode, key, bytes(t), ct1)
+            t = bytearray(ct2); t[15] ^= 3 ^ v
+            D(mode, key, iv, bytes(t))
+        # whole final run equal to v for the interesting pad values, in buffers of 1, 2, 3 and 16 blocks
+        for v in (0, 1, 2, 15, 16, 17, 31, 32, 33, 48, 64, 127, 128, 129, 254, 255):
+            for nblk in (1, 2, 3, 16):
+                L = 16 * nblk
+                raw = (bytes(x if x != v else x ^ 2 for x in rb(rng, L)) + bytes([v]) * v)[-L:] if v else rb(rng, L - 1) + b"\x00"
+                D(mode, key, iv, cbc_nopad(key, iv, raw))
+                DI(mode, key, iv, cbc_nopad(key, iv, raw))
+            D(mode, key, iv, cbc_nopad(key, iv, bytes([v]) * 256))      # 256 bytes all equal v
+    # 8b. CTR carries at every byte boundary inside the low 64 bits, both key sizes, messages crossing the carry;
+    #     low-64 values with the top bit set / leading zero bytes
+    for mode in ("128ctr", "256ctr"):
+        for nff in range(1, 8):
+            for pre in (b"\x00", b"\x7f", b"\xfe"):
+                low = (pre * (8 - nff))[: 8 - nff] + b"\xff" * nff
+                if low == b"\xff" * 8:
+                    continue
+                for hi in (rb(rng, 8), b"\xff" * 8):
+                    for n in (16, 17, 32, 33, 48):
+                        key, msg = rb(rng, klen(mode)), rb(rng, n)
+                        E(mode, key, hi + low, msg)
+                        if n == 17:
+                            D(mode, key, hi + low, ctr128(key, hi + low, msg))
+                            R(mode, key, hi + low, msg)
+            low = b"\x00" * (8 - nff) + b"\xff" * (nff - 1) + b"\xfe"              # carry at the third block
+            E(mode, rb(rng, klen(mode)), rb(rng, 8) + low, rb(rng, 49))
+        for low in ("8000000000000000", "80000000ffffffff", "ffffffff00000000", "ffffffff7fffffff", "0000000080000000",
+                    "000000007fffffff", "0000000100000000", "00000000000000" + "00", "7fffffffffffffff", "fffffffffffffff0"):
+            for hi in (b"\x00" * 8, b"\x80" + b"\x00" * 7, rb(rng, 8)):
+                key, msg = rb(rng, klen(mode)), rb(rng, 40)
+                E(mode, key, hi + bytes.fromhex(low), msg)
+                DI(mode, key, hi + bytes.fromhex(low), ctr128(key, hi + bytes.fromhex(low), msg))
+    # 8c. around 16 KiB in all four modes (mostly constant filler: the LCG expansion dominates the Coq cost otherwise)
+    for mode in MODES:
+        for n in (16383, 16384, 16385):
+            key, iv = rb(rng, klen(mode)), rb(rng, 8) + b"\x00\x00" + rb(rng, 6)
+            d = "l:%d:700+r:%02x:%d" % (rng.randrange(1, 1 << 31), rng.randrange(256), n - 700)
+            if n == 16384 or tier == "thorough":
+                R(mode, key, iv, d)
+            else:
+                cases.append(("aes.encrypt", [mode, key.hex(), iv.hex(), d]))
+                if mode.endswith("ctr"):
+                    cases.append(("aes.decrypt", [mode, key.hex(), iv.hex(), d]))
+        if tier == "thorough":
+            cases.append(("aes.encrypt_impl", [mode, rb(rng, klen(mode)).hex(), (rb(rng, 8) + b"\x00" * 8).hex(), "l:%d:16400" % rng.randrange(1, 1 << 31)]))
+            cases.append(("aes.decrypt_impl", [mode, rb(rng, klen(mode)).hex(), (rb(rng, 8) + b"\x00" * 8).hex(), "l:%d:16400" % rng.randrange(1, 1 << 31)]))
+    # 8d. the empty message / ciphertext, every mode, every entry point
+    for mode in MODES:
+        key, iv = rb(rng, klen(mode)), rb(rng, 8) + b"\x00" + rb(rng, 7)
+        E(mode, key, iv, b""); D(mode, key, iv, b""); EI(mode, key, iv, b""); DI(mode, key, iv, b""); R(mode, key, iv, b"")
+        D(mode, key, iv, cbc_pkcs7(key, iv, b"") if mode.endswith("cbc") else b"")
+    # 8e. every key length and every IV length 0..40, every mode, encrypt and decrypt
+    for mode in MODES:
+        for n in range(0, 41):
+            E(mode, rb(rng, n), rb(rng, 16), rb(rng, 5)); D(mode, rb(rng, n), rb(rng, 16), rb(rng, 16))
+            E(mode, rb(rng, klen(mode)), rb(rng, n), rb(rng, 5)); D(mode, rb(rng, klen(mode)), rb(rng, n), rb(rng, 16))
+        for n in (0, 15, 17, 24, 31, 33, 48 - klen(mode)):
+            EI(mode, rb(rng, n), rb(rng, 16), rb(rng, 5)); DI(mode, rb(rng, klen(mode)), rb(rng, n), rb(rng, 16))
+            R(mode, rb(rng, n), rb(rng, 16), rb(rng, 5)); R(mode, rb(rng, klen(mode)), rb(rng, n), rb(rng, 5))
+    # 8f. message lengths in every residue class mod 256 (81..336), all modes; *_impl entry points on short messages
+    for mode in MODES:
+        key, iv = rb(rng, klen(mode)), rb(rng, 8) + b"\x00" + rb(rng, 7)
+        for n in range(81, 337):
+            if mode.endswith("cbc") or tier == "thorough" or n % 16 in (0, 1, 15):
+                R(mode, key, iv, "l:%d:%d" % (n, n))
+            else:                                                    # CTR decryption is the same function
+                cases.append(("aes.encrypt" if n % 2 else "aes.decrypt", [mode, key.hex(), iv.hex(), "l:%d:%d" % (n, n)]))
+        for n in (0, 1, 15, 16, 17, 31, 32, 33, 64, 255, 256, 257):
+            msg = rb(rng, n)
+            EI(mode, key, iv, msg)
+            DI(mode, key, iv, cbc_pkcs7(key, iv, msg) if mode.endswith("cbc") else ctr128(key, iv, msg))
+        for n in (511, 512, 513, 767, 768, 769, 2047, 2048, 2049, 4097):
+            R(mode, key, iv, "l:%d:%d" % (n, n))
+    # 8g. value patterns and coincidences: all-zero / all-ff / leading-zero keys and IVs, key = IV, constant messages
+    for mode in MODES:
+        kl = klen(mode)
+        pats = [bytes(kl), b"\xff" * kl, b"\x00" * (kl - 1) + b"\x01", b"\x80" + bytes(kl - 1), b"\x00\x00" + rb(rng, kl - 2)]
+        ivs = [bytes(16), b"\x00" * 15 + b"\x01", b"\x80" + bytes(15), b"\xff" * 8 + bytes(8), b"\x00\x00" + rb(rng, 6) + b"\x00\x00" + rb(rng, 6)]
+        for key in pats:
+            for iv in ivs:
+                R(mode, key, iv, rb(rng, 23))
+                E(mode, key, iv, bytes(32))
+        key = rb(rng, kl)
+        R(mode, key, key[:16], rb(rng, 40))                 # IV = (prefix of) key
+        E(mode, key, key[-16:], b"\xff" * 33)
+        iv = rb(rng, 8) + b"\x00" + rb(rng, 7)
+        E(mode, key, iv, key); E(mode, key, iv, iv); R(mode, key, iv, bytes(48)); R(mode, key, iv, b"\x10" * 16); R(mode, key, iv, b"\x01")
+        if kl == 16:
+            E(mode, iv, key, rb(rng, 20))                   # roles swapped (same type, same length)
 
     # 7. random sizes
     nrand = 150 if tier == "quick" else 2500
